@@ -269,3 +269,83 @@ Proof.
          [0; 1]%N, [9]%N.
   vm_compute. repeat split; discriminate.
 Qed.
+
+(* ---- (4) deleteUnorderedFiles: the inputs that stay visible are a SUFFIX of the merged inputs ---- *)
+Lemma files_mv_other st a b p : p <> a -> p <> b -> files (run_step (Mv a b) st) p = files st p.
+Proof.
+  intros Ha Hb. cbn [run_step]. destruct (files st a); [|reflexivity]. cbn [files].
+  rewrite upd_other by exact Ha. rewrite upd_other by exact Hb. reflexivity.
+Qed.
+
+Lemma files_mv_src st a b : a <> b -> files (run_step (Mv a b) st) a = None.
+Proof.
+  intro H. cbn [run_step]. destruct (files st a) eqn:E; [|exact E]. cbn [files]. apply upd_same.
+Qed.
+
+Lemma files_rm_other st a p : p <> a -> files (run_step (Rm a) st) p = files st p.
+Proof. intro H. cbn [run_step files]. apply upd_other. exact H. Qed.
+
+Lemma logs_mv st a b : logs (run_step (Mv a b) st) = logs st.
+Proof. cbn [run_step]. destruct (files st a); reflexivity. Qed.
+
+Lemma In_skipn_in {X} k (l : list X) x : In x (skipn k l) -> In x l.
+Proof. revert l. induction k; intros [|y l] H; cbn in *; try tauto. right. apply IHk. exact H. Qed.
+
+Lemma unord_rep_suffix inuse fails : forall us i st liveU,
+  NoDup us ->
+  exists k, k <= length us /\
+    snd (unord_rep inuse fails i us st liveU) = lrm_all (firstn k us) liveU /\
+    (forall u, In u (firstn k us) -> files (fst (unord_rep inuse fails i us st liveU)) (u, false) = None) /\
+    (forall u b, In u (skipn k us) ->
+       files (fst (unord_rep inuse fails i us st liveU)) (u, b) = files st (u, b)) /\
+    (forall p, ~ In (fst p) us -> files (fst (unord_rep inuse fails i us st liveU)) p = files st p) /\
+    logs (fst (unord_rep inuse fails i us st liveU)) = logs st.
+Proof.
+  induction us as [|u rest IH]; intros i st liveU Hnd.
+  - exists 0. cbn. repeat split; try tauto; lia.
+  - inversion Hnd as [|? ? Hnotin Hnd']; subst. cbn [unord_rep].
+    destruct (fails i).
+    + exists 0. cbn. repeat split; try tauto; lia.
+    + set (st1 := run_step (Mv (u, false) (u, true)) st).
+      assert (Hst1_other : forall p, fst p <> u -> files st1 p = files st p).
+      { intros [n b] Hp. cbn [fst] in Hp. unfold st1. apply files_mv_other; intro E; inversion E; congruence. }
+      assert (Hst1_u : files st1 (u, false) = None) by (unfold st1; apply files_mv_src; intro E; inversion E).
+      assert (Hlog1 : logs st1 = logs st) by (unfold st1; apply logs_mv).
+      assert (Gen : forall st2 i2,
+                 (forall p, fst p <> u -> files st2 p = files st p) -> files st2 (u, false) = None -> logs st2 = logs st ->
+                 exists k, k <= length (u :: rest) /\
+                   snd (unord_rep inuse fails i2 rest st2 (lrm u liveU)) = lrm_all (firstn k (u :: rest)) liveU /\
+                   (forall x, In x (firstn k (u :: rest)) -> files (fst (unord_rep inuse fails i2 rest st2 (lrm u liveU))) (x, false) = None) /\
+                   (forall x b, In x (skipn k (u :: rest)) ->
+                      files (fst (unord_rep inuse fails i2 rest st2 (lrm u liveU))) (x, b) = files st (x, b)) /\
+                   (forall p, ~ In (fst p) (u :: rest) -> files (fst (unord_rep inuse fails i2 rest st2 (lrm u liveU))) p = files st p) /\
+                   logs (fst (unord_rep inuse fails i2 rest st2 (lrm u liveU))) = logs st).
+      { intros st2 i2 Hother Hu Hlog.
+        destruct (IH i2 st2 (lrm u liveU) Hnd') as [k [K1 [K2 [K3 [K4 [K5 K6]]]]]].
+        exists (S k). cbn [length firstn skipn]. split; [lia|]. split; [rewrite K2; reflexivity|]. split; [|split; [|split]].
+        - intros x [Hx|Hx]; [subst x; rewrite K5; [exact Hu | cbn [fst]; exact Hnotin] | apply K3; exact Hx].
+        - intros x b Hx. rewrite (K4 x b Hx). apply Hother. cbn [fst]. intro E. subst x.
+          apply Hnotin. apply (In_skipn_in k). exact Hx.
+        - intros p Hp. rewrite K5 by (intro H; apply Hp; right; exact H). apply Hother. intro E. apply Hp. left. symmetry. exact E.
+        - rewrite K6. exact Hlog. }
+      destruct (inuse u).
+      * apply Gen; assumption.
+      * destruct (fails (S i)).
+        -- apply Gen; assumption.
+        -- apply Gen.
+           ++ intros [n b] Hp. cbn [fst] in Hp. rewrite files_rm_other by (intro E; inversion E; congruence).
+              apply Hst1_other. exact Hp.
+           ++ rewrite files_rm_other by (intro E; inversion E). exact Hst1_u.
+           ++ cbn [run_step logs]. exact Hlog1.
+Qed.
+
+(* today's loop (unord_loop): the removal of the middle input fails, the newer one is removed: not a suffix *)
+Lemma unord_current_gap_refuted :
+  exists inuse fails us st liveU,
+    let r := unord_loop inuse fails 0 us st liveU in
+    files (fst r) (1%N, false) <> None /\ files (fst r) (2%N, false) = None /\ files st (2%N, false) <> None.
+Proof.
+  exists (fun _ => false), (fun i => Nat.eqb i 1), [0; 1; 2]%N,
+         (mkfs (files_of [(0, false, 10); (1, false, 11); (2, false, 12)]%N) NoLog), [0; 1; 2]%N.
+  vm_compute. repeat split; discriminate.
+Qed.
